@@ -498,3 +498,33 @@ Definition zfn (k : nat) (p : Z * Z) : Z * Z :=
   | 3%nat => (2 * x + 1, 3 - y)
   | _ => (- y, - x)
   end.
+
+(* ---------------- executable point-set statements over the lattice ----------------
+   For envelopes with integer corners the closed-interval point sets are compared through their
+   integer points (Proofs/Envelope_proofs.v shows that integer witnesses suffice). These functions
+   do not use the min/max comparisons of the methods they judge: they enumerate points. *)
+Definition zrange (lo hi : Z) : list Z :=
+  map (fun i => lo + Z.of_nat i) (seq 0 (Z.to_nat (hi - lo + 1))).
+Definition box_points (b : zbox) : list (Z * Z) :=
+  flat_map (fun x => map (fun y => (x, y)) (zrange (miny b) (maxy b))) (zrange (minx b) (maxx b)).
+Definition env_points (e : zenv) : list (Z * Z) :=
+  match e with None => [] | Some b => box_points b end.
+Definition pt_eqb (p q : Z * Z) : bool := (fst p =? fst q) && (snd p =? snd q).
+Definition mem_pt (p : Z * Z) (l : list (Z * Z)) : bool := existsb (pt_eqb p) l.
+(* "has any points in common" *)
+Definition intersects_spec (a b : zenv) : bool :=
+  existsb (fun p => mem_pt p (env_points b)) (env_points a).
+(* "every point of the other envelope is contained in this envelope", both non-empty *)
+Definition covers_spec (a b : zenv) : bool :=
+  negb (env_is_empty a) && negb (env_is_empty b)
+  && forallb (fun q => mem_pt q (env_points a)) (env_points b).
+(* least squared distance over all pairs of points; None when an operand is empty *)
+Definition sqd (p q : Z * Z) : Z :=
+  (fst p - fst q) * (fst p - fst q) + (snd p - snd q) * (snd p - snd q).
+Definition dist2_spec (a b : zenv) : option Z :=
+  fold_left (fun acc p =>
+    fold_left (fun acc q =>
+      match acc with
+      | None => Some (sqd p q)
+      | Some d => Some (Z.min d (sqd p q))
+      end) (env_points b) acc) (env_points a) None.
